@@ -37,16 +37,15 @@ contract(TB, 'TypeBlocks._cols_to_slice',
     ])
 
 _POS = '(is_none(key.step) or key.step > 0)'
-_QQ = 'cond(is_none(key.stop), _q0, _q1)'
+_QQ = 'cond(is_none(key.stop) or (key.stop < 0 and key.stop + size < 0), _q0, _q1)'      # which of the two floor divisions ran
 contract(UTIL, 'slice_to_ascending_slice',
     props=['C08', 'C03'],
+    ghost_results=['_q0', '_q1'],
     params=dict(key='slice', size='int'), order=['key', 'size'],
     result='slice',
     requires=[
         'size >= 0',
-        'is_none(key.step) or key.step != 0',
-        'is_none(key.start) or key.start >= 0',
-        'is_none(key.stop) or key.stop >= 0',
+        'is_none(key.step) or key.step != 0',        # every slice a user can write: start/stop None, negative or out of range
     ],
     ensures=[
         'is_none(result.step) or result.step > 0',
@@ -96,3 +95,16 @@ contract(TB, 'TypeBlocks._indices_to_contiguous_pairs',
     at_exit=['cut == len(indices)'],
     # callers see: the concatenated expansions of the yielded segments reproduce `indices`
     ensures=[])
+
+CU = 'static_frame/core/container_util.py'
+contract(CU, 'key_to_ascending_key',
+    props=['C08'],
+    params=dict(key='slice', size='int'), order=['key', 'size'], result='slice',
+    requires=['size >= 0', 'is_none(key.step) or key.step != 0'],       # every slice a user can write, incl. negative start/stop
+    ensures=[
+        # from the property: the ascending key addresses exactly the positions the user's key addresses
+        'is_none(result.step) or result.step > 0',
+        f'forall(lambda i, k: implies(nth(key, size, k, i), nth(result, size, cond({_POS}, k, cond(key.step == -1, i - s_start(result, size), {_QQ} - k)), i)))',
+        f'forall(lambda i, k: implies(nth(result, size, k, i), nth(key, size, cond({_POS}, k, cond(key.step == -1, s_start(key, size) - i, {_QQ} - k)), i)))',
+    ],
+    ensures_concrete=['result.step is None or result.step > 0', 'R(result, size) == sorted(set(R(key, size)))'])
